@@ -106,9 +106,15 @@ impl Prop for C08 {
     fn run_case(&self, case: &Case, ctx: &Ctx) -> Result<CaseInfo, Fail> {
         let mut info = CaseInfo::default();
         let (rec, end) = crash::record_with(case, false, true, |run| {
-            // final flush so that scheduled removals are sent; settle
+            // final flush so that scheduled removals are sent; settle. One case in three ends
+            // without it: the store is then dropped with a purge (and the removals it scheduled)
+            // still unflushed — nothing may be deleted on the way out.
             let mut settled = false;
-            if run.inst.is_some() && crate::trace::thread_alive(run.worker()) {
+            let plain_end = case.sel % 3 == 0;
+            if plain_end {
+                run.classes.hit("ended_without_final_flush");
+            }
+            if !plain_end && run.inst.is_some() && crate::trace::thread_alive(run.worker()) {
                 if let Ok(id) = run.flush_call(true) {
                     let _ = run.wait_ack(id);
                     settled = matches!(crate::trace::ack_of(id), Some(Ok(()))) && run.worker_idle();
